@@ -10,6 +10,7 @@ import Proofs.C14.Tr
 import Proofs.C14.Toy
 import Proofs.C14.CoreImport
 import Proofs.C14.Assemble
+import Proofs.C14.Normalize
 /-!
 # C14 — descriptors and wallets derive what they describe and recognise only their own
 
@@ -867,6 +868,57 @@ example :
     descWalletNew toyE [] [(5, "mainnet", .raw [0xaa]), (-1, "mainnet", .raw [0xbb])] = none ∧
     (descWalletNew toyE [] [(5, "mainnet", .raw [0xaa]), (2, "mainnet", .raw [0xbb])]).map (·.2.map (·.1)) =
       some [2, 5] := by
+  decide +kernel
+
+/-! ### `normalized()` (Core's `ToNormalizedString`): re-rooting at the last hardened step
+
+`Model/C14/Normalize.lean` mirrors `normalized` / `_normalized_key` / `_mapped_keys` on C07's `deriveB`, `neuter`,
+`serialize`, `fingerprint` and C06's Base58Check; the stream `desc.norm` compares it with btclib, the re-rooting
+branch included (real xprvs, secp256k1). -/
+
+/-- `normalized` is idempotent: what it answers is answered unchanged by a second pass, whatever private keys that
+    pass is handed (none are needed: after re-rooting no hardened step is left in any path). -/
+theorem normalized_idempotent (prv prv' : PrvKeys) (d d' : D) (h : normalized E prv d = some d') :
+    normalized E prv' d' = some d' :=
+  normalized_idem E prv prv' d d' h
+
+/-- what `_normalized_key` answers for a key: the symbol is the generated `_HARDENING` = `h`; the wildcard is the one
+    written; the whole written derivation (origin path followed by the key's path) is the same list of steps, the
+    hardened prefix having moved into the origin; and no hardened step is left to re-root at. -/
+theorem normalized_key_keeps_written_derivation (prv : PrvKeys) (k k' : Key)
+    (h : Key.normalize E prv k = some k') :
+    NORMAL_HARD = Hard.h ∧ k'.hard = NORMAL_HARD ∧ k'.wildcard = k.wildcard ∧
+    (k'.origin.map (·.path)).getD [] ++ k'.path = (k.origin.map (·.path)).getD [] ++ k.path ∧
+    k'.rerooted = false :=
+  ⟨by decide, (normalize_result_not_rerooted E prv k k' h).2, (normalize_keeps_derivation E prv k k' h).1,
+   (normalize_keeps_derivation E prv k k' h).2, (normalize_result_not_rerooted E prv k k' h).1⟩
+
+/- FULL statement (not proved): for every descriptor, `normalized E prv d = some d'` implies
+   `∀ i, scripts E net [] i d' = scripts E net prv i d` (under C01's `Lawful`, C07's bounds and C06's Base58Check
+   round trip: CKDpub of the neutered key = neutered CKDpriv along the unhardened rest, C07's `neuter_deriveB`).
+   Proved below for the descriptors none of whose keys is re-rooted (fixed keys, extended keys whose path hardens
+   nothing, `/*h` wildcards): there `normalized` cannot refuse, changes the symbol only, and the scripts at every
+   index, under every `prv_keys`, are the same.  MISSING: the re-rooted keys (the link decodeXkey ∘ encodeXkey and
+   `neuter_deriveB` through `Key.sec`); on those the equality is checked on the real code (oracle `normalized`) and
+   the normalized TEXT against the model (stream `desc.norm`). -/
+theorem normalized_same_scripts_partial (net : String) (prv prv' : PrvKeys) (d : D)
+    (h : ∀ k ∈ d.keys, k.rerooted = false) :
+    normalized E prv d = some (d.mapKeys (Key.withHard NORMAL_HARD)) ∧
+    ∀ i, scripts E net prv' i (d.mapKeys (Key.withHard NORMAL_HARD)) = scripts E net prv' i d :=
+  normalized_not_rerooted E net prv prv' d h
+
+/-- `sh(multi(1, x/1/*', 02…))` written with `'`: normalized with no private key at hand, answered with `h`, and
+    answered unchanged the second time; a key with a hardened step and no private key is refused. -/
+example :
+    let k : Key := { origin := none, atom := .xkey ['x'], path := [1], wildcard := some true, hard := .apos }
+    let f : Key := { (Key.fixed (2 :: List.replicate 32 9)) with hard := .apos }
+    normalized toyE [] (.sh (.multi 1 [k, f] false)) =
+      some (.sh (.multi 1 [{ k with hard := .h }, { f with hard := .h }] false)) ∧
+    normalized toyE [] (.sh (.multi 1 [{ k with hard := .h }, { f with hard := .h }] false)) =
+      some (.sh (.multi 1 [{ k with hard := .h }, { f with hard := .h }] false)) ∧
+    (∀ k' ∈ (D.sh (.multi 1 [k, f] false)).keys, k'.rerooted = false) ∧
+    normalized toyE [] (.pk { k with path := [HARDENED_OFFSET + 1, 7], wildcard := some false }) = none ∧
+    Key.rerooted { k with path := [HARDENED_OFFSET + 1, 7], wildcard := some false } = true := by
   decide +kernel
 
 end T3
